@@ -106,7 +106,7 @@ impl core::ops::Sub<Duration> for Timestamp {
 }
 impl AddSpecImpl<Duration> for Timestamp {
     open spec fn obeys_add_spec() -> bool { true }
-    open spec fn add_req(self, rhs: Duration) -> bool { ts_plus_ok(self, rhs) }   // [nopanic.frag.glue.ts_add]
+    open spec fn add_req(self, rhs: Duration) -> bool { ts_plus_ok(self, rhs) }
     open spec fn add_spec(self, rhs: Duration) -> Timestamp { ts_plus(self, rhs) }
 }
 impl core::ops::Add<Duration> for Timestamp {
